@@ -114,7 +114,13 @@ func inboundMappedType(typ *schema.TypeUnion, stg schema.UnionRepresentation_Key
 			return member.Name()
 		}
 	}
-	// println(key, "had no mapping")
+	for _, member := range typ.Members() {
+		if key == member.Name() {
+			// key is the type-level name of a member whose discriminant is something else;
+			// only the discriminant is a key of the representation.
+			return ""
+		}
+	}
 	return key // fallback to the same key
 }
 
